@@ -660,10 +660,11 @@ Qed.
 
 Definition signac_prog (c : case_C10) : Prop := model_prog c = atomic_write 1 0 (k_chunks c).
 
-Lemma signac_prog_site : forall c, k_fault c = None -> raw_site (k_site c) = false -> signac_prog c.
+Lemma signac_prog_site : forall c, k_fault c = None -> raw_site (k_site c) = false ->
+  inplace_site (k_site c) = false -> signac_prog c.
 Proof.
-  intros c Hf Hs. unfold signac_prog, model_prog. rewrite Hf.
-  destruct (k_site c); simpl in Hs; try discriminate; reflexivity.
+  intros c Hf Hs Hi. unfold signac_prog, model_prog. rewrite Hf.
+  destruct (k_site c); simpl in Hs, Hi; try discriminate; reflexivity.
 Qed.
 
 Lemma model_crash_good : forall c, signac_prog c ->
@@ -677,12 +678,19 @@ Proof.
   - apply extras_only_tmp. intros n H1 H0. apply B; assumption.
 Qed.
 
+Lemma pre_inplace : forall c, pre_C10 c = true -> inplace_site (k_site c) = false.
+Proof.
+  intros c H. unfold pre_C10 in H. apply andb_true_iff in H. destruct H as [H _].
+  apply andb_true_iff in H. destruct H as [H _]. apply andb_true_iff in H. destruct H as [H _].
+  apply negb_true_iff in H. exact H.
+Qed.
+
 Lemma pre_parts : forall c, pre_C10 c = true ->
   read_name (fs0 c) 0 <> Some (new_content c) /\ length (new_content c) <= big /\
   (forall d, read_name (fs0 c) 0 = Some d -> length d <= big).
 Proof.
   intros c H. unfold pre_C10 in H. apply andb_true_iff in H. destruct H as [H H3].
-  apply andb_true_iff in H. destruct H as [H1 H2]. repeat split.
+  apply andb_true_iff in H. destruct H as [H1 H2]. apply andb_true_iff in H1. destruct H1 as [_ H1]. repeat split.
   - intro E. apply negb_true_iff in H1. apply obytes_eqb_eq in E. congruence.
   - apply Nat.leb_le. exact H2.
   - intros d E. rewrite E in H3. apply Nat.leb_le. exact H3.
@@ -702,7 +710,7 @@ Proof.
       * unfold read_name in B. destruct (dent _ 1%N); [discriminate|reflexivity].
       * intros n H1 _. apply C. exact H1.
   - destruct (raw_site (k_site c)) eqn:Es; [right; auto|left].
-    rewrite (signac_prog_site c Ef Es).
+    rewrite (signac_prog_site c Ef Es (pre_inplace c Hpre)).
     destruct (atomic_complete (fs0 c) 1 0 (k_chunks c) (fs0_wf c) ltac:(discriminate)) as (A & B & C).
     f_equal.
     + rewrite A. unfold classify. cbv zeta.
@@ -772,7 +780,7 @@ Proof.
     rewrite Hfin, Hmf. reflexivity.
   - apply andb_true_iff in Hrest. destruct Hrest as [Hrest Hrd]. apply andb_true_iff in Hrest. destruct Hrest as [_ Hcr].
     unfold set_eqb in Hcr, Hrd. apply andb_true_iff in Hcr, Hrd. destruct Hcr as [Hcr _]. destruct Hrd as [Hrd _].
-    pose proof (signac_prog_site c Ef Es) as Hp.
+    pose proof (signac_prog_site c Ef Es (pre_inplace c Hpre)) as Hp.
     rewrite Hfin, Hmf. rewrite andb_true_r.
     apply andb_true_iff. split.
     + apply forallb_forall. intros x Hx.
@@ -782,3 +790,23 @@ Proof.
       apply (subset_forall _ outcome_eqb (fun x => good x = true) _ _
                (fun a b H => proj1 (outcome_eqb_eq a b) H) Hrd (model_reader_good c Hpre Hp) x Hx).
 Qed.
+
+(* the two places where signac rewrites a document in place are the model's direct_write (known finding C10 tag 1) *)
+Lemma inplace_is_direct : forall c, k_fault c = None -> inplace_site (k_site c) = true ->
+  model_prog c = direct_write 0 (k_chunks c).
+Proof.
+  intros c Hf Hi. unfold model_prog. rewrite Hf. destruct (k_site c); simpl in Hi; try discriminate; reflexivity.
+Qed.
+
+Definition case_sync_copy : case_C10 :=
+  {| k_site := SSyncCopy; k_thread := true; k_old := [(0%N, [1%N])]; k_chunks := [[10%N; 10%N]]; k_fault := None;
+     k_steps := direct_write 0 [[10%N; 10%N]]; k_crash := model_crash
+       {| k_site := SSyncCopy; k_thread := true; k_old := [(0%N, [1%N])]; k_chunks := [[10%N; 10%N]]; k_fault := None;
+          k_steps := []; k_crash := []; k_reader := []; k_final := (ONew, []) |};
+     k_reader := [OOld; OEmpty; ONew]; k_final := (ONew, []) |}.
+
+Lemma sync_copy_refuted_w :
+  mismatch_C10 case_sync_copy = false /\ holds_C10 case_sync_copy = false /\ classify_C10 case_sync_copy = 1%N /\
+  existsb (fun x => outcome_eqb (fst x) OEmpty) (model_crash case_sync_copy) = true /\
+  existsb (fun x => outcome_eqb (fst x) OTorn) (model_crash case_sync_copy) = true.
+Proof. vm_compute. repeat split. Qed.
